@@ -547,6 +547,7 @@ pub fn main(mode: Mode) -> i32 {
             let mut ctx = Ctx::new("C17", "quick");
             ctx.replay(&iso, &doc)
         }
+        Mode::Minimize(..) => 2,
         Mode::Run(tier) => {
             let mut ctx = Ctx::new("C17", &tier);
             ctx.rule = "cases: every repo .dora file that parses x line lengths, plus proptest choice sequences decoded into grammar-directed programs and layout mutants (whitespace regenerated between all tokens: joined, airy, blank-line runs; block and line comments inserted at token boundaries; the mutant is kept only if its code-token sequence equals the base's) x widths {1,2,10,40,79,80,90,120,10000}; oracle: formatter returns Ok without panic, output re-parses, code-token sequence equal after removing optional trailing commas (the comma of a one-element tuple is NOT optional), comment multiset equal, format(format(x)) == format(x). non-trivial = input with a comment adjacent to a delimiter/operator AND a width at which the output differs from the width-10000 output; distinct by (text,width) hash".into();
